@@ -42,6 +42,9 @@ type SmtpMsg struct {
 	// FailVia (with RenderFail): "" = the body producer fails; "seeker" / "seeker-eof" = an attachment whose
 	// read-seeker source breaks off half-way, with a sentinel error / with an error that wraps io.EOF
 	FailVia string `json:"fail_via,omitempty"`
+	// AttachBytes > 0: the message also carries an attachment of this many bytes (a multipart message: the body and
+	// the file go through the multipart layers of the writer)
+	AttachBytes int `json:"attach_bytes,omitempty"`
 	// ToViaAdd: the To list is built with To(first) followed by one AddTo per further address
 	ToViaAdd bool `json:"to_via_add,omitempty"`
 }
@@ -247,6 +250,13 @@ func buildSmtpMsg(i int, sm SmtpMsg) *mail.Msg {
 		m.SetBodyWriter(mail.TypeTextPlain, producer([][]byte{content}, true))
 	} else {
 		m.SetBodyString(mail.TypeTextPlain, body)
+	}
+	if sm.AttachBytes > 0 {
+		data := make([]byte, sm.AttachBytes)
+		for k := range data {
+			data[k] = byte(k*31 + i)
+		}
+		_ = m.AttachReader("attachment.bin", bytes.NewReader(data))
 	}
 	return m
 }
@@ -675,7 +685,7 @@ func (sc *SmtpScenario) modelLine(run *SmtpRun) string {
 				sender = "-"
 			}
 		}
-		toks = append(toks, "m", encBool(sm.EightBit), sender, encLS(run.Msgs[i].AllRcpts), encBool(!sm.RenderFail), encBool(sm.BigBody > 2*transportBuffer))
+		toks = append(toks, "m", encBool(sm.EightBit), sender, encLS(run.Msgs[i].AllRcpts), encBool(!sm.RenderFail), encBool(sm.BigBody+sm.AttachBytes*4/3 > 2*transportBuffer))
 	}
 	return strings.Join(toks, " ")
 }
